@@ -13,7 +13,7 @@ one() {
   for p in $PROPS; do
     out=$(JV_REPO="$w/repo" JV_CACHE="$w/cache" JV_OUT="$w/out" timeout 600 /verif/check $p 2>&1); rc=$?
     if [ $rc -eq 1 ]; then
-      rules=$(echo "$out" | grep -A1 '^VIOLATION' | grep -o 'C[0-9][0-9]-[A-Z]*' | sort -u | tr '\n' ',' )
+      rules=$(echo "$out" | grep -A1 '^VIOLATION' | grep -o 'C[0-9][0-9]-[A-Z0-9]*' | sort -u | tr '\n' ',' )
       res="$res $p:VIOLATION[$rules]"
     elif [ $rc -eq 2 ]; then res="$res $p:BROKEN"; fi
   done
